@@ -15,9 +15,10 @@ Local Open Scope nat_scope.
    most once, after the outermost exit -- normal or by an exception -- calls read fresh data, and
    nested blocks change nothing: the sequential reading of the code produces, call by call, the
    answers and the per-call read counts of the specification's ghost machine (Spec.spec_run).
-   spec_run is None for histories outside the stated domain: ppid() while stat is unreadable or
-   the process is gone (its PID-reuse pre-check belongs to C01/C02), a source reappearing after
-   the process vanished, a single file of a live process vanishing. *)
+   spec_run is None only for histories outside the stated domain (decidable, computed by the machine
+   itself in g_ok): a source changing again after the process vanished, a single file of a live
+   process vanishing, a history starting with a vanished source.  ppid() is covered everywhere in
+   it, including while stat is unreadable and after the process is gone (sticky Process._gone). *)
 Theorem C16_block_first_read : forall f h rs,
   spec_run f h = Some rs ->
   map proj_res (rev (q_res (sq_run (sq_init f) h))) = rs.
@@ -68,6 +69,74 @@ Theorem C16_as_dict_spec : forall valid resolve q,
                 (sq_exit (sq_run (sq_enter q) (map (call_of resolve) (firstn k (requested valid attrs)))), Exc NoSuchProcess))).
 Proof. exact as_dict_spec. Qed.
 Print Assumptions C16_as_dict_spec.
+
+(* ---- the two readings are one machine *)
+
+(* One thread, any program: the run of the interleaving semantics lts_step terminates, and its answers with
+   their per-call read counts, its block stack and its final shared state (dict contents, both pointers,
+   lock, sources, Process._gone) are those of the sequential reading, up to the ghost step numbers
+   (projr drops them from a result, sheq from the shared state).  So the theorems above speak about the
+   machine the thread theorems below are about. *)
+Theorem C16_seq_is_lts_alone : forall f h,
+  exists n th,
+    let c := run_sched code_now (init_cfg f [h]) (repeat 0 n) in
+    let q := sq_run (sq_init f) h in
+    c_ths c = [th] /\ t_pc th = PDone /\
+    map projr (rev (t_res th)) = rev (q_res q) /\ t_stk th = q_stk q /\ sheq (c_sh c) (q_sh q).
+Proof. exact seq_is_lts_alone. Qed.
+Print Assumptions C16_seq_is_lts_alone.
+
+(* that run is the only one: every configuration reachable with a single thread lies on it, and a
+   finished thread cannot move *)
+Theorem C16_lts_alone_deterministic : forall f h c,
+  reach code_now (init_cfg f [h]) c -> exists k, c = run_sched code_now (init_cfg f [h]) (repeat 0 k).
+Proof. exact lts_alone_deterministic. Qed.
+Print Assumptions C16_lts_alone_deterministic.
+
+Theorem C16_lts_alone_done_is_final : forall c th t,
+  c_ths c = [th] -> t_pc th = PDone -> lts_step code_now c t = None.
+Proof. exact lts_alone_done_is_final. Qed.
+Print Assumptions C16_lts_alone_done_is_final.
+
+(* 1 and 2 restated on lts_step itself *)
+Theorem C16_block_first_read_lts : forall f h rs,
+  spec_run f h = Some rs ->
+  exists n th, c_ths (run_sched code_now (init_cfg f [h]) (repeat 0 n)) = [th] /\ t_pc th = PDone /\
+               map proj_res (map projr (rev (t_res th))) = rs.
+Proof. exact block_first_read_lts. Qed.
+Print Assumptions C16_block_first_read_lts.
+
+Theorem C16_fresh_after_lts : forall f h,
+  q_stk (sq_run (sq_init f) h) = [] ->
+  exists n th, let c := run_sched code_now (init_cfg f [h]) (repeat 0 n) in
+               c_ths c = [th] /\ t_pc th = PDone /\ t_stk th = [] /\ fptr (c_sh c) = None /\ pptr (c_sh c) = None.
+Proof. exact fresh_after_lts. Qed.
+Print Assumptions C16_fresh_after_lts.
+
+(* ---- which sources a block keeps (on the ghost machine; by C16_block_first_read(_lts) these are the
+   read counts of the code's model) *)
+
+(* stat, status, smaps -- the sources shared by several methods: inside one block (the history never
+   returns to depth 0), however many calls of whichever methods and whatever the kernel does meanwhile,
+   each is read successfully at most once, and not at all once the block holds it *)
+Theorem C16_shared_source_read_once : forall s g h g' rs,
+  shared_source s = true -> Nat.ltb 0 (g_depth g) = true -> stays g h = true ->
+  spec_go g h [] = (g', rs) ->
+  reads s rs <= 1 /\ (g_snap g s <> None -> reads s rs = 0).
+Proof. exact shared_source_read_once. Qed.
+Print Assumptions C16_shared_source_read_once.
+
+(* statm is per method: memory_full_info() reads it on every successful call and leaves nothing
+   behind, memory_info() keeps its own answer for the block; the shared sources are exactly the
+   three memoized readers *)
+Theorem C16_statm_per_method :
+  (forall g g' v c, spec_call g Mmemory_full = (g', (Val v, Some c)) -> nth (idx Statm) c 0 = 1) /\
+  (forall g g' x, spec_call g Mmemory_full = (g', x) -> g_snap g' Statm = g_snap g Statm) /\
+  (forall g v, Nat.ltb 0 (g_depth g) = true -> g_snap g Statm = Some v ->
+               spec_call g Mmemory_info = (g, (Val v, Some zero4))) /\
+  (forall s, shared_source s = true <-> s = Stat \/ s = Status \/ s = Smaps).
+Proof. exact statm_per_method. Qed.
+Print Assumptions C16_statm_per_method.
 
 (* ... against the table of attribute names dumped from the code on every run (coq/Gen/C16_Tables.v):
    the modelled names are accepted, the action / navigation methods are rejected with ValueError
